@@ -268,9 +268,9 @@ def process_block(kind, header, dirs, report):
         mm = re.match(r'\s*/(.*)/\s*=>\s?(.*)$', s)
         if not mm:
             raise TemplateError('bad subst: ' + s)
-        body, n = re.subn(mm.group(1), mm.group(2), body)
+        body, n = re.subn(mm.group(1), mm.group(2), body, flags=re.M)
         if kind == 'fn' and not sig:
-            use_sig, n2 = re.subn(mm.group(1), mm.group(2), use_sig); n += n2
+            use_sig, n2 = re.subn(mm.group(1), mm.group(2), use_sig, flags=re.M); n += n2
         if n == 0:
             raise AnchorError(f'subst /{mm.group(1)}/ matched nothing in {entry["anchor"]}')
         entry['rewrites'][f'R3/subst /{mm.group(1)}/ => {mm.group(2)}'] = n
